@@ -7,20 +7,19 @@ P = {
     "theorems_module": "Properties.C03",
     "theorems": ["C03_method_list_semantics", "C03_method_list_rejected", "C03_hosts_any", "C03_decode_per_setting",
                  "C03_route_matches_iff", "C03_captures_exact", "C03_unnamed_not_exposed",
-                 "C03_F8_refuted", "C03_F1_pinned_refuted", "C03_F3_pinned_refuted", "C03_F4_pinned_refuted",
+                 "C03_F1_pinned_refuted", "C03_F3_pinned_refuted", "C03_F4_pinned_refuted",
                  "C03_F2_pinned_refuted", "C03_F5_pinned_refuted", "C03_F5_pinned_panic_refuted", "C03_F6_pinned_refuted",
-                 "C03_F7_pinned_refuted", "C03_nonvacuous"],
+                 "C03_F7_pinned_refuted", "C03_F8_pinned_refuted", "C03_nonvacuous"],
     "streams": [{
         "name": "routes", "pkg": "./internal/rules", "test": "TestVerifC03",
         "overlay": {"internal/rules/zz_verif_c03_test.go": "c03/c03_test.go"},
         "eval_module": "Run.Eval_C03",
-        # check fx1 .. fx7: the model with (true) / without (false) the repair of C03-Fn.  All in /repo: F1 (6793b33),
-        # F2 (88da16a), F3 (20f92b3), F4 (22bae5e), F5 (16cf34b), F6 (72ba5d4), F7 (a779db8)
-        # the last argument is the variant of the slash-preserving decoder: D0 pinned, D7 after a779db8 (now),
-        # D8 with the candidate fixes/C03-F8.diff
-        "check_term": "check true true true true true true D7",
+        # check fx1 fx2 fx3 fx4 fx5 fx6 dec: the model with (true) / without (false) the repair of C03-Fn; dec = variant of the
+        # slash-preserving decoder: D0 pinned, D7 after a779db8 (F7), D8 after 6d0a3af (F8).  All repairs are in /repo:
+        # F1 6793b33, F2 88da16a, F3 20f92b3, F4 22bae5e, F5 16cf34b, F6 72ba5d4, F7 a779db8, F8 6d0a3af
+        "check_term": "check true true true true true true D8",
         "n_quick": 1200, "n_thorough": 30000, "shard": 100,
-        "findings": {8: "C03-F8"},
+        "findings": {},
     }],
     "rule": "a case = a rule set of 1-4 rules (scheme in {'',http,https,ftp}; method lists with ALL / !M / !!M / duplicates / unknown / empty string; 0-3 hosts "
             "of type exact/glob/regex incl. non-compiling and unknown types; 1-2 routes per rule, 60% mutated from earlier expressions of the case "
